@@ -1,6 +1,7 @@
 import Failsafe.Exec
 import Failsafe.Tie.Execution
 import Failsafe.Lemmas.ExecBodiesLink
+import Failsafe.Conc.TraceHedge
 /-!
 # C17 — execution statistics count attempts, executions, retries and hedges exactly
 
@@ -486,5 +487,202 @@ example : XInv ([XOp.initializeRetry, .copyForHedge, .record, .cancel none, .ini
 example : ([XOp.initializeRetry, .copyForHedge, .record].foldl XOp.apply XSt.new).attempts = 3 := by decide
 
 end counters
+
+section hedgeTrace
+open Failsafe.Conc Failsafe.Conc.Hedge Failsafe.Conc.TraceHedge
+
+/-- one step of the traced hedge system moves the started-attempt counter only when it starts an attempt -/
+theorem launched_step (t t' : TS) (x : TraceHedge.Act) (h : TraceHedge.step t x = some t') :
+    t'.core.launched = t.core.launched + (if x = .launchFirst ∨ x = .launchHedge then 1 else 0) := by
+  cases x with
+  | launchFirst =>
+    simp only [TraceHedge.step] at h
+    split at h
+    · simp only [Hedge.step] at h
+      split at h
+      · simp only [Option.map_some, Option.some.injEq] at h; subst h; simp
+      · simp at h
+    · cases h
+  | launchHedge =>
+    simp only [TraceHedge.step] at h
+    split at h
+    · simp only [Hedge.step] at h
+      split at h
+      · simp only [Option.map_some, Option.some.injEq] at h; subst h; simp
+      · simp at h
+    · cases h
+  | timer =>
+    simp only [TraceHedge.step, Hedge.step] at h
+    split at h
+    · simp only [Option.map_some, Option.some.injEq] at h; subst h; simp
+    · simp at h
+  | recv =>
+    simp only [TraceHedge.step, Hedge.step] at h
+    split at h
+    · split at h
+      · simp only [Option.map_some, Option.some.injEq] at h; subst h; simp
+      · simp at h
+    · simp at h
+  | count k c =>
+    simp only [TraceHedge.step] at h
+    split at h
+    · simp only [Hedge.step] at h
+      split at h
+      · simp only [Option.map_some, Option.some.injEq] at h; subst h; simp
+      · simp at h
+    · cases h
+  | trySend k c f =>
+    simp only [TraceHedge.step, Hedge.step] at h
+    split at h
+    · split at h <;> (simp only [Option.map_some, Option.some.injEq] at h; subst h; simp)
+    · simp at h
+  | fnRet k c =>
+    simp only [TraceHedge.step] at h; split at h
+    · simp only [Option.some.injEq] at h; subst h; simp
+    · cases h
+  | enter k =>
+    simp only [TraceHedge.step] at h; split at h
+    · simp only [Option.some.injEq] at h; subst h; simp
+    · cases h
+  | callerRet k =>
+    simp only [TraceHedge.step] at h; split at h
+    · simp only [Option.some.injEq] at h; subst h; simp
+    · cases h
+  | seeCancelled k =>
+    simp only [TraceHedge.step] at h; split at h
+    · simp only [Option.some.injEq] at h; subst h; simp
+    · cases h
+  | settled =>
+    simp only [TraceHedge.step] at h; split at h
+    · simp only [Option.some.injEq] at h; subst h; simp
+    · cases h
+
+/-- along any run of the traced hedge system the started-attempt counter grows by exactly the number of `OnHedge` events shown,
+plus one for the (unannounced) first attempt if the run starts it -/
+theorem launched_counts_hedge_events (n : Nat) (a b : TS) (tr : List Ev) (h : Trace.Run (osys n) a tr b) :
+    b.core.launched = a.core.launched + tr.count Ev.hedge + (if a.core.launched = 0 ∧ 0 < b.core.launched then 1 else 0) := by
+  induction h with
+  | nil s => by_cases h0 : s.core.launched = 0 <;> simp [h0]
+  | silent s s' s'' x tr hm hs hst _ ih =>
+    have hl := launched_step s s' x hst
+    cases x with
+    | launchFirst =>
+      have h0 : s.core.launched = 0 := by
+        simp only [osys, TraceHedge.step] at hst; split at hst
+        · assumption
+        · cases hst
+      simp only [true_or, ↓reduceIte] at hl
+      rw [ih, hl, h0]
+      simp
+      split <;> omega
+    | launchHedge => simp [osys, silent] at hs
+    | fnRet k c => simp [osys, silent] at hs
+    | enter k => simp [osys, silent] at hs
+    | callerRet k => simp [osys, silent] at hs
+    | seeCancelled k => simp [osys, silent] at hs
+    | settled => simp [osys, silent] at hs
+    | timer => simp at hl; rw [hl] at ih; exact ih
+    | recv => simp at hl; rw [hl] at ih; exact ih
+    | count k c => simp at hl; rw [hl] at ih; exact ih
+    | trySend k c f => simp at hl; rw [hl] at ih; exact ih
+  | vis s s' s'' x e tr hm hs hsh hst _ ih =>
+    have hl := launched_step s s' x hst
+    cases x with
+    | launchHedge =>
+      have h0 : 0 < s.core.launched := by
+        simp only [osys, TraceHedge.step] at hst; split at hst
+        · assumption
+        · cases hst
+      have he : e = Ev.hedge := by cases e <;> simp [osys, shows] at hsh; rfl
+      simp only [or_true, ↓reduceIte] at hl
+      subst he
+      rw [hl] at ih
+      have h1 : ¬ (s.core.launched + 1 = 0 ∧ 0 < s''.core.launched) := by omega
+      have h2 : ¬ (s.core.launched = 0 ∧ 0 < s''.core.launched) := by omega
+      simp only [h1, ↓reduceIte] at ih
+      rw [List.count_cons_self]
+      simp only [h2, ↓reduceIte]; omega
+    | launchFirst => simp [osys, silent] at hs
+    | timer => simp [osys, silent] at hs
+    | recv => simp [osys, silent] at hs
+    | count k c => simp [osys, silent] at hs
+    | trySend k c f => simp [osys, silent] at hs
+    | fnRet k c =>
+      have he : e ≠ Ev.hedge := by intro he; subst he; simp [osys, shows] at hsh
+      simp at hl; rw [hl] at ih; rw [List.count_cons_of_ne he]; exact ih
+    | enter k =>
+      have he : e ≠ Ev.hedge := by intro he; subst he; simp [osys, shows] at hsh
+      simp at hl; rw [hl] at ih; rw [List.count_cons_of_ne he]; exact ih
+    | callerRet k =>
+      have he : e ≠ Ev.hedge := by intro he; subst he; simp [osys, shows] at hsh
+      simp at hl; rw [hl] at ih; rw [List.count_cons_of_ne he]; exact ih
+    | seeCancelled k =>
+      have he : e ≠ Ev.hedge := by intro he; subst he; simp [osys, shows] at hsh
+      simp at hl; rw [hl] at ih; rw [List.count_cons_of_ne he]; exact ih
+    | settled =>
+      have he : e ≠ Ev.hedge := by intro he; subst he; simp [osys, shows] at hsh
+      simp at hl; rw [hl] at ih; rw [List.count_cons_of_ne he]; exact ih
+
+/-- **on traces**: in every trace the model can show — hence in every recorded hedged run the acceptor accepts — the number of attempts
+whose function was entered, read after the call has settled, is one more than the number of `OnHedge` calls made before that reading:
+each hedge is counted once, the first attempt is not a hedge, and no attempt starts uncounted -/
+theorem settled_attempts_eq_hedge_events (n : Nat) (t1 t2 : List Ev) (m : Nat) (c : TS)
+    (h : Trace.Run (osys n) (osys n).init (t1 ++ Ev.settled m :: t2) c) : m = t1.count Ev.hedge + 1 := by
+  obtain ⟨b, hb1, hb2⟩ := Trace.Run.split_append t1 (Ev.settled m :: t2) h
+  obtain ⟨b2, hb3, _⟩ := Trace.Run.split_cons hb2
+  obtain ⟨s, s', x, htau, hx, hsil, hsh, hst, _⟩ := Trace.Run.single_vis hb3
+  have hrun : Trace.Run (osys n) (osys n).init t1 s := by
+    have := Trace.Run.append hb1 (Trace.Run.of_tau htau (Trace.Run.nil s))
+    simpa using this
+  have hinv : Inv s.core := reach_inv n s (Trace.Run.reach hrun Trace.Reach.init)
+  have hcnt := launched_counts_hedge_events n _ _ _ hrun
+  cases x with
+  | settled =>
+    have hm : s.core.launched = m := by
+      have h0 : shows s .settled (.settled m) = true := hsh
+      simpa [shows] using h0
+    have hret : s.core.returned = true := by
+      simp only [osys, TraceHedge.step] at hst; split at hst
+      · assumption
+      · cases hst
+    -- something was accepted, so some attempt finished, so at least one was started
+    have hpos : 0 < s.core.launched := by
+      have hacc := hinv.retAcc hret
+      obtain ⟨x, hx⟩ := Option.isSome_iff_exists.mp hacc
+      have hfin := (hinv.produced x (Or.inr hx)).1
+      have hlt : x.1 < s.core.launched := by
+        apply Nat.lt_of_not_le; intro hge
+        have hidle : s.core.ths[x.1]? = some .idle := by
+          have hlen : x.1 < s.core.n := by
+            have := hinv.len
+            have hsome : x.1 < s.core.ths.length := by
+              apply Nat.lt_of_not_le; intro hh; rw [List.getElem?_eq_none hh] at hfin; cases hfin
+            omega
+          exact hinv.prefixStarted x.1 (by omega) hlen
+        rw [hidle] at hfin; cases hfin
+      omega
+    have h0 : (osys n).init.core.launched = 0 := by simp [osys, Hedge.init]
+    rw [h0] at hcnt
+    simp only [hpos, and_self, ↓reduceIte, Nat.zero_add] at hcnt
+    omega
+  | launchFirst => simp [osys, shows] at hsh
+  | launchHedge => simp [osys, shows] at hsh
+  | timer => simp [osys, shows] at hsh
+  | recv => simp [osys, shows] at hsh
+  | fnRet k' c' => simp [osys, shows] at hsh
+  | count k' c' => simp [osys, shows] at hsh
+  | trySend k' c' f' => simp [osys, shows] at hsh
+  | enter k' => simp [osys, shows] at hsh
+  | seeCancelled k' => simp [osys, shows] at hsh
+  | callerRet k' => simp [osys, shows] at hsh
+
+/-- non-vacuity, decided by running the acceptor (maxHedges = 1): one hedge, two attempts — accepted; one hedge and a reading of one
+or three attempts — rejected -/
+example : (Trace.accepts (osys 2) 30 [.enter 0, .hedge, .enter 1, .finish 1 true, .callerRet 1, .finish 0 false, .settled 2]).map (·.isEmpty) = some false := by decide
+example : (Trace.accepts (osys 2) 30 [.enter 0, .hedge, .enter 1, .finish 1 true, .callerRet 1, .settled 1]).map (·.isEmpty) = some true := by decide
+example : (Trace.accepts (osys 2) 30 [.enter 0, .hedge, .enter 1, .finish 1 true, .callerRet 1, .settled 3]).map (·.isEmpty) = some true := by decide
+example : (Trace.accepts (osys 2) 30 [.enter 0, .finish 0 true, .callerRet 0, .settled 1]).map (·.isEmpty) = some false := by decide
+
+end hedgeTrace
 
 end Failsafe.Props.C17
